@@ -1,0 +1,14 @@
+//go:build verif
+
+// Contracts (machine-checked by /verif/bin/govc).  Comment-only file.
+
+package nas
+
+// The plain NAS codec is specified under C08/C09; for the security envelope
+// (C06, C10) it is an abstract deterministic byte string plain(msg).
+
+//@ func (*Message).PlainNasEncode
+//@ trusted
+//@ pure
+//@ ensures size: len(result0) < 1<<16
+//@ ensures some: result1 != nil || len(result0) >= 1
